@@ -62,7 +62,8 @@ class Fn:
         mapping = {}
         banned = (ast.Yield, ast.Await, ast.NamedExpr, ast.Lambda) + (() if comps else (ast.ListComp, ast.DictComp, ast.SetComp, ast.GeneratorExp))
         for x in ast.walk(e):
-            if isinstance(x, ast.Name) and isinstance(x.ctx, ast.Load) and x.id in self.lf.locals and x.id not in stop and x.id not in mapping:
+            if isinstance(x, ast.Name) and isinstance(x.ctx, ast.Load) and x.id in self.lf.locals and x.id not in stop and x.id not in mapping \
+                    and x.id not in self.mutated_in_place():
                 vals = self.lf.values_reaching(nid, x.id)
                 if len(vals) == 1 and vals[0][0] != PARAM and vals[0][1] is not None:
                     site, v = vals[0]
@@ -216,6 +217,44 @@ class Fn:
         """Is the fact `src` known to have value `truth` on every path to node `nid`?"""
         from fsa.match import has_fact
         return has_fact(self.guard_atoms(nid), src, truth)
+
+    def mutated_in_place(self) -> Set[str]:
+        """Locals changed other than by assignment (element stores, mutating methods): their defining expression is not
+        their value later on, so they are never read through."""
+        if getattr(self, '_mip', None) is None:
+            out: Set[str] = set()
+            MUT = ('append', 'extend', 'insert', 'update', 'add', 'pop', 'popitem', 'remove', 'discard', 'clear', 'setdefault', 'sort', 'reverse')
+            for x in ast.walk(self.fi.node):
+                if isinstance(x, (ast.Subscript, ast.Attribute)) and isinstance(x.ctx, (ast.Store, ast.Del)) and isinstance(x.value, ast.Name):
+                    out.add(x.value.id)
+                if isinstance(x, ast.Call) and isinstance(x.func, ast.Attribute) and x.func.attr in MUT and isinstance(x.func.value, ast.Name):
+                    out.add(x.func.value.id)
+            self._mip = out
+        return self._mip
+
+    def off_by_default(self, nid: int) -> Optional[str]:
+        """The guard that keeps node `nid` from running when every option of this function has its default value: an atom
+        over parameters (never reassigned) with constant defaults that evaluates to the opposite of what the path needs."""
+        a_ = self.fi.node.args
+        pos = a_.posonlyargs + a_.args
+        dflt = {p.arg: d for p, d in zip(pos[len(pos) - len(a_.defaults):], a_.defaults) if isinstance(d, ast.Constant)}
+        dflt.update({p.arg: d for p, d in zip(a_.kwonlyargs, a_.kw_defaults) if isinstance(d, ast.Constant)})
+        for (a, truth, tn) in self.guard_atoms(nid):
+            names = {x.id for x in ast.walk(a) if isinstance(x, ast.Name)}
+            if not names or not names <= set(dflt):
+                continue
+            if not all(all(s_ == PARAM for (s_, _v) in self.lf.values_reaching(tn.id, nm)) for nm in names):
+                continue
+            if any(not isinstance(x, (ast.Name, ast.Constant, ast.Compare, ast.BoolOp, ast.UnaryOp, ast.Load, ast.cmpop, ast.boolop, ast.unaryop, ast.expr_context))
+                   for x in ast.walk(a)):
+                continue
+            try:
+                val = bool(eval(compile(ast.Expression(body=a), '<guard>', 'eval'), {'__builtins__': {}}, {k: v.value for k, v in dflt.items()}))
+            except Exception:
+                continue
+            if val != truth:
+                return f'`{text(a)}` is {val} for the default {", ".join(f"{k}={dflt[k].value!r}" for k in sorted(names))}'
+        return None
 
     def etext(self, nid: int, e: ast.AST, stop=()) -> str:
         return text(self.expand(nid, e, stop=stop))
@@ -406,11 +445,88 @@ class Fn:
             return None
         return self.loop_store_comp(st)
 
-    def symexec(self, methods: bool = False, **kw):
+    def groupby_read(self, e: ast.AST) -> ast.AST:
+        """`G[c]` read as `[E(s) for s in SRC if K(s) == c]` when `G` is a local dictionary of lists filled by one loop
+        `for s in SRC: G[K(s)].append(E(s))` (or `G.setdefault(K(s), []).append(E(s))`) and changed nowhere else
+        (names as the gated evaluator writes them, `G@<line>`, included)."""
+        import copy as _copy
+        groups: Dict[str, Tuple[ast.AST, ast.AST, ast.AST, ast.AST]] = {}
+        for n in self.cfg.nodes:
+            if n.kind != 'for' or n.ast.orelse or len(n.ast.body) != 1 or not isinstance(n.ast.body[0], ast.Expr):
+                continue
+            c = n.ast.body[0].value
+            if not (isinstance(c, ast.Call) and isinstance(c.func, ast.Attribute) and c.func.attr == 'append' and len(c.args) == 1):
+                continue
+            r = c.func.value
+            key = None
+            if isinstance(r, ast.Subscript) and isinstance(r.value, ast.Name):
+                g_, key = r.value.id, r.slice
+            elif isinstance(r, ast.Call) and isinstance(r.func, ast.Attribute) and r.func.attr == 'setdefault' and isinstance(r.func.value, ast.Name) \
+                    and len(r.args) == 2 and isinstance(r.args[1], ast.List) and not r.args[1].elts:
+                g_, key = r.func.value.id, r.args[0]
+            if key is None or g_ not in self.lf.locals:
+                continue
+            # initialised to empty lists only, and touched by nothing but this loop
+            inits = self.assigns_to(g_)
+            ok_init = len(inits) == 1 and inits[0].ast.value is not None and (
+                (isinstance(inits[0].ast.value, ast.Dict) and all(isinstance(v_, ast.List) and not v_.elts for v_ in inits[0].ast.value.values))
+                or (isinstance(inits[0].ast.value, ast.DictComp) and isinstance(inits[0].ast.value.value, ast.List) and not inits[0].ast.value.value.elts)
+                or text(inits[0].ast.value) in ('defaultdict(list)', 'collections.defaultdict(list)'))
+            others = [m for m in self.cfg.nodes if m.ast is not None and m.kind == 'stmt' and m.id != inits[0].id if ok_init
+                      for x in ast.walk(m.ast) if isinstance(x, ast.Name) and x.id == g_ and m.ast is not n.ast.body[0]
+                      and (isinstance(x.ctx, (ast.Store, ast.Del)) or any(
+                          isinstance(p_, ast.Call) and isinstance(p_.func, ast.Attribute) and p_.func.value is x and p_.func.attr in
+                          ('update', 'pop', 'popitem', 'clear', 'setdefault', '__setitem__') for p_ in ast.walk(m.ast))
+                          or any(isinstance(p_, ast.Subscript) and p_.value is x and isinstance(p_.ctx, (ast.Store, ast.Del)) for p_ in ast.walk(m.ast)))]
+            if ok_init and not others and n.id not in [l for m in [inits[0]] for l in m.loops]:
+                groups[g_] = (n.ast.target, n.ast.iter, key, c.args[0])
+        if not groups:
+            return e
+
+        class T(ast.NodeTransformer):
+            def visit_Subscript(self, node):
+                self.generic_visit(node)
+                if isinstance(node.value, ast.Name) and isinstance(node.ctx, ast.Load) and node.value.id.split('@')[0] in groups:
+                    tg, it, key, elt = groups[node.value.id.split('@')[0]]
+                    cond = ast.Compare(left=_copy.deepcopy(key), ops=[ast.Eq()], comparators=[_copy.deepcopy(node.slice)])
+                    return ast.ListComp(elt=_copy.deepcopy(elt), generators=[ast.comprehension(target=_copy.deepcopy(tg), iter=_copy.deepcopy(it), ifs=[cond], is_async=0)])
+                return node
+
+        return ast.fix_missing_locations(T().visit(_copy.deepcopy(e)))
+
+    def deep_helpers(self) -> Dict[str, Tuple[ast.FunctionDef, ast.AST]]:
+        """Module-level functions called by name here (defined in this module or imported from another module of the
+        package) whose return value can be read leniently: past their own nested helpers, a helper passed as an argument,
+        a memoising decorator.  For rules that need one more level of reading than `expand` gives everyone."""
+        from fsa.summ import summarise_return
+        called = {x.func.id for x in ast.walk(self.fi.node) if isinstance(x, ast.Call) and isinstance(x.func, ast.Name)}
+        out: Dict[str, Tuple[ast.FunctionDef, ast.AST]] = {}
+        mod = self.fi.module
+        defs = {s_.name: s_ for s_ in mod.tree.body if isinstance(s_, ast.FunctionDef)}
+        pkg = mod.name.rsplit('.', 1)[0] if '.' in mod.name else mod.name
+        for s_ in mod.tree.body:
+            if isinstance(s_, ast.ImportFrom):
+                base = mod.name.split('.')
+                src = '.'.join(base[:len(base) - s_.level] + ([s_.module] if s_.module else [])) if s_.level else (s_.module or '')
+                for a_ in s_.names:
+                    q_ = f'{src}.{a_.name}'
+                    if q_ in self.repo.functions and (a_.asname or a_.name) not in defs:
+                        defs[a_.asname or a_.name] = self.repo.functions[q_].node
+        strict = self._pure_helpers()
+        for nm in sorted(called):
+            if nm in defs and nm not in strict and defs[nm] is not self.fi.node:
+                rv = summarise_return(defs[nm], lenient=True)
+                if rv is not None:
+                    out[nm] = (defs[nm], rv)
+        return out
+
+    def symexec(self, methods: bool = False, deep: bool = False, **kw):
         """Gated symbolic evaluator of this function, reading through the helpers `expand` reads through (with `methods`
-        also through one-expression methods of the same class, `self.m(...)`)."""
+        also through one-expression methods of the same class, `self.m(...)`; with `deep` through `deep_helpers()`)."""
         from fsa.gated import SymExec
         hs = {k: v for k, v in self._pure_helpers().items() if methods or not k.startswith('self.')}
+        if deep:
+            hs.update(self.deep_helpers())
         return SymExec(self.fi.node, extra_helpers=hs, **kw)
 
     def path_to(self, n: Node) -> List[str]:
